@@ -147,6 +147,7 @@ def generate(seed, tier='quick'):
         'in_body': [t.decode() for t in in_body],
         'after_body': [t.decode() for t in after_body],
         'have_body': have_body, 'oversize': oversize,
+        'bystander': rng.random() < 0.25,
     }
 
 
@@ -161,6 +162,10 @@ def _run_variant(world, scn, idx, variant):
         b_opts={'segmenter': 'whole', 'latency': net.LAT_ZERO})
     trace = hs.Trace(world, 'v%d' % idx)
     srv = hs.start_server(world, trace, scn['cfg'], b, a.getpeername())
+    by = None
+    if scn.get('bystander') and not scn['cfg'].get('tls_immediately'):
+        by = hs.start_bystander(world, trace, pace_key='by%d' % idx)
+        world.probe('bystander-session')
     out = bytearray()
     rd = gevent.spawn(hs.read_all, a, out)
 
@@ -173,7 +178,9 @@ def _run_variant(world, scn, idx, variant):
     if not a.closed:
         a.close()
     return {'finished': bool(ok), 'out': bytes(out), 'calls': trace.calls,
-            'segs': a.tx.writes}
+            'segs': a.tx.writes,
+            'bystander': hs.bystander_verdict(world, trace, by, scn['cfg'])
+            if by is not None and ok else None}
 
 
 def execute(scn, debug=False):
@@ -195,6 +202,12 @@ def execute(scn, debug=False):
                     'detail': {'variant': scn['variants'][i][0]},
                     'msg': 'server session did not end after client EOF; '
                            'blocked at %s' % world.blocked_report()})
+        for i, r in enumerate(res):
+            if r.get('bystander') and not violations:
+                violations.append({
+                    'clause': 'C09/cross-session', 'detail': {},
+                    'msg': r['bystander'] + ' (variant %s)' % (
+                        scn['variants'][i][:2],)})
         if not violations:
             for i, r in enumerate(res[1:], 1):
                 if r['out'] != base['out'] or r['calls'] != base['calls']:
